@@ -43,7 +43,7 @@ INFO = dict(
          'fake channels (3.12)'],
   assumptions=['A2 exact reals (EMA arithmetic)', 'invariant = reachable states'],
 )
-EXPECT_COVERS = ['adjust-expands', 'adjust-contracts', 'adjust-contract-blocked-by-pending', 'adjust-contract-blocked-by-health',
+EXPECT_COVERS = ['drain-completes', 'adjust-expands', 'adjust-contracts', 'adjust-contract-blocked-by-pending', 'adjust-contract-blocked-by-health',
                  'adjust-unchanged-in-band', 'adjust-expand-blocked-at-max', 'contract-prefers-closed', 'nodedown-expands', 'jitter-round']
 
 
@@ -61,6 +61,9 @@ def jobs(tier):
         js.append(dict(name='dispatch-a%d-i%d' % (na, ni), op='dispatch', na=na, ni=ni, pend=0, cost=8 ** na))
         for v in range(1, na + 1):
           js.append(dict(name='complete%d-a%d-i%d' % (v, na, ni), op='complete', v=v, na=na, ni=ni, pend=0, cost=8 ** na))
+  for na in range(0, na_max + 1):
+    for ni in (0, 1):
+      js.append(dict(name='drain-a%d-i%d' % (na, ni), op='drain', na=na, ni=ni, pend=0, cost=6 ** na))
   for na in (1, 2):
     for ni in (1, 2):
       js.append(dict(name='jitter-a%d-i%d' % (na, ni), op='jitter', na=na, ni=ni, pend=0, cost=50))
@@ -240,6 +243,18 @@ def make_body(job):
       nm = len(c.members)
       mins = c.cfg[0]
       if s._size < na: check('complete.contract-not-below-min', s._size >= ite(mins <= nm, mins, nm))
+    elif op == 'drain':
+      # a request completes on a member that already left the aperture (evicted or departed while loaded):
+      # the outstanding total feeding the load average must still go down by exactly one
+      ch = B.Chan(99, fresh_int('st_drain', 1, 4))
+      dn = ApertureBalancerSink.Node(ch, Idle + fresh_int('out_drain', 1, B.OUT_MAX), -1, Ep('gone', 1))
+      assume(c.total >= dn.load - Idle)        # its outstanding requests are part of the total
+      out = dn.load - Idle
+      s._HeapBalancerSink__Put(dn)
+      cover('drain-completes')
+      check('drain.total-decremented', s._total == c.total - 1)
+      check('drain.close-iff-last', siff(ch.closed == 1, out == 1))
+      partition_ok(c, 'drain')
     elif op == 'jitter':
       q = tqm.TimerQueue(time_source=vtime.now, resolution=1)
       class TS(object): pass
